@@ -12,9 +12,13 @@
 //!              what the twin's observer reads.
 //! * `A <= L < S` (a height above the limit was needed only transiently): unjudged (slack).
 //! * `SetMax(M)`: with `U` = twin height in use now: `M >= max(U, S)` must succeed in both
-//!   profiles (`C19.shrink_panics`), and `L := M`; `U <= M < S` (below a height seen but no
-//!   longer in use) is unjudged (DESIGN §8): if it panics the history ends, if it succeeds the
-//!   limit is M; `M < U` is outside the property: the history ends unjudged.
+//!   profiles (`C19.shrink_panics`), and `L := M`. `M < U` is the caller's mistake: it must be
+//!   refused with a panic (any message; `C19.shrink_below_in_use` if it returns normally) and
+//!   must leave the state exactly as it was: `L` is unchanged and the history goes on being
+//!   judged as before (accept iff needed <= L, reject naming the height otherwise, drops fine).
+//!   `U <= M < S` (below a height seen but no longer in use): whether it succeeds is unjudged
+//!   (DESIGN §8); if it succeeds the limit is M, if it panics the same "state unchanged" rule
+//!   applies. Signatures of violations found after a refused call carry `+refused-setmax`.
 //! * a panic naming a height at any other action is `C19.when`; any other panic `C19.panic`.
 
 use crate::core::*;
@@ -28,8 +32,10 @@ const DROP_ORDERS: u8 = 4;
 
 #[derive(Clone, Debug, PartialEq)]
 pub enum Shape {
-    /// `w.map(+1)` repeated `len` times
-    Chain { len: usize },
+    /// `w.map(+1)` repeated `len` times; with `join`, a two-input node `map2(top, w)` on top of
+    /// it (a two-input node is recomputed through the recompute heap, a chain of single-input
+    /// maps is recomputed directly)
+    Chain { len: usize, join: bool },
     /// `depth` nested binds; the bind at `sel_level` has `sel` as its left-hand side (the others
     /// a variable that never changes); the innermost closure returns a chain of `l0` / `l1`
     /// maps over `w` according to `sel` - built inside the closure (`inside`) or beforehand at
@@ -113,8 +119,11 @@ impl Side {
         let st = self.state.as_ref().unwrap();
         let w = st.var(0u32);
         match shape {
-            Shape::Chain { len } => {
-                let root = chain(&w.watch(), *len);
+            Shape::Chain { len, join } => {
+                let mut root = chain(&w.watch(), *len);
+                if *join {
+                    root = root.map2(&w.watch(), |a, b| a.wrapping_add(*b));
+                }
                 self.nodes.push(root);
             }
             Shape::Bind { depth, sel_level, inside, l0, l1, top } => {
@@ -203,6 +212,9 @@ pub struct HeightWorld {
     /// how the limit was configured last
     via: &'static str,
     setmax_used: u8,
+    /// a set_max_height_allowed was refused (panicked) earlier in this history; the state must be
+    /// exactly as before it
+    refused: bool,
     /// twin: greatest height in use / ever assigned, refreshed after every twin stabilise
     /// (heights change only inside stabilise)
     twin_in_use: i64,
@@ -242,6 +254,14 @@ impl HeightWorld {
             HAct::SetSel(_) => "SetSel",
             HAct::SetW(_) => "SetW",
             HAct::Drop(_) => "Drop",
+        }
+    }
+    /// how the limit was configured, for messages and cause signatures
+    fn via_s(&self) -> String {
+        if self.refused {
+            format!("{}+refused-setmax", self.via)
+        } else {
+            self.via.to_string()
         }
     }
     fn cfg_text(&self) -> String {
@@ -285,6 +305,7 @@ impl World for HeightWorld {
             limit: prog.init.map(|n| n as i64).unwrap_or(DEFAULT_LIMIT),
             via: if prog.init.is_some() { "ctor" } else { "default" },
             setmax_used: 0,
+            refused: false,
             twin_in_use: -1,
             twin_seen: 0,
             poisoned: false,
@@ -349,8 +370,8 @@ impl World for HeightWorld {
                         if check {
                             vs.push(v(
                                 "C19.drop_after_panic",
-                                format!("order{order}:{}@{}", self.via, p.short_location()),
-                                format!("after the expected height panic (limit {} via {}), dropping the handles in order {order} panicked at {}: {}", self.limit, self.via, p.short_location(), p.first_line()),
+                                format!("order{order}:{}@{}", self.via_s(), p.short_location()),
+                                format!("after the expected height panic (limit {} via {}), dropping the handles in order {order} panicked at {}: {}", self.limit, self.via_s(), p.short_location(), p.first_line()),
                             ));
                         }
                     }
@@ -390,7 +411,7 @@ impl World for HeightWorld {
                             vs.push(v(
                                 "C19.when",
                                 format!("{kind}@{}", p.short_location()),
-                                format!("{a:?} (limit {} via {}) panicked naming a height outside stabilise, at {}: {}", self.limit, self.via, p.short_location(), p.first_line()),
+                                format!("{a:?} (limit {} via {}) panicked naming a height outside stabilise, at {}: {}", self.limit, self.via_s(), p.short_location(), p.first_line()),
                             ));
                         } else {
                             vs.push(v("C19.panic", format!("{kind}@{}", p.short_location()), format!("{a:?} panicked at {}: {}", p.short_location(), p.first_line())));
@@ -428,6 +449,7 @@ impl World for HeightWorld {
                                 "shrink" => "setmax-shrink",
                                 _ => "setmax-same",
                             };
+                            self.refused = false;
                             self.note("setmax_ok");
                             self.mix("setmax ok");
                         }
@@ -450,24 +472,46 @@ impl World for HeightWorld {
                         }
                     }
                 } else if mi >= u {
-                    // below a height that was seen but is no longer in use: unjudged
+                    // below a height that was seen but is no longer in use: whether it succeeds is
+                    // unjudged; a refusal must leave the state as it was
                     self.note("unjudged_setmax_below_seen");
                     match r {
                         Ok(()) => {
                             self.explain = format!("set_max_height_allowed({m}) ok, below seen {s} (unjudged)");
                             self.limit = mi;
                             self.via = "setmax-below-seen";
+                            self.refused = false;
                             self.mix("setmax ok");
                         }
                         Err(p) => {
-                            self.explain = format!("set_max_height_allowed({m}) below seen {s}: panic (unjudged) {}", p.first_line());
-                            self.kill();
+                            self.explain = format!("set_max_height_allowed({m}) below seen {s}: refused ({}); the limit stays {}", p.first_line(), self.limit);
+                            self.refused = true;
+                            self.note("setmax_refused_below_seen");
+                            self.mix("setmax refused");
                         }
                     }
                 } else {
-                    self.note("unjudged_setmax_below_in_use");
-                    self.explain = format!("set_max_height_allowed({m}) below height in use {u}: outside the property, result {:?}", r.as_ref().map_err(|p| p.first_line()));
-                    self.kill();
+                    // below the greatest height in use: the caller's mistake; it must be refused with
+                    // a panic (any message) and must leave the state exactly as it was
+                    match r {
+                        Err(p) => {
+                            self.explain = format!("set_max_height_allowed({m}) below height in use {u}: refused ({}); the limit stays {}", p.first_line(), self.limit);
+                            self.refused = true;
+                            self.note("setmax_refused_below_in_use");
+                            self.mix("setmax refused");
+                        }
+                        Ok(()) => {
+                            self.explain = format!("set_max_height_allowed({m}) below height in use {u} was NOT refused");
+                            if check {
+                                vs.push(v(
+                                    "C19.shrink_below_in_use",
+                                    format!("{dir}:accepted"),
+                                    format!("{}: set_max_height_allowed({m}) (limit {}) with greatest height in use {u} returned normally instead of panicking", self.cfg_text(), self.limit),
+                                ));
+                            }
+                            self.kill();
+                        }
+                    }
                 }
             }
             HAct::Stabilise => {
@@ -495,7 +539,7 @@ impl World for HeightWorld {
                     catch(|| real.st().stabilise())
                 };
                 let l = self.limit;
-                let ctx = format!("{} limit {l} (via {}), graph needs height {need} (twin; greatest ever assigned {seen})", self.cfg_text(), self.via);
+                let ctx = format!("{} limit {l} (via {}), graph needs height {need} (twin; greatest ever assigned {seen})", self.cfg_text(), self.via_s());
                 if need > l {
                     // must reject here
                     match rr {
@@ -506,7 +550,7 @@ impl World for HeightWorld {
                             if !names_height(&p) && check {
                                 vs.push(v(
                                     "C19.message",
-                                    format!("{}@{}", self.via, p.short_location()),
+                                    format!("{}@{}", self.via_s(), p.short_location()),
                                     format!("{ctx}: the panic does not name the height limit: {} at {}", p.first_line(), p.short_location()),
                                 ));
                             }
@@ -516,7 +560,7 @@ impl World for HeightWorld {
                             let got = self.real.as_ref().unwrap().read();
                             self.explain = format!("{ctx}: NOT rejected, observer reads {got:?}");
                             if check {
-                                vs.push(v("C19.rejects", format!("{}", self.via), format!("{ctx}: stabilise did not panic (observer reads {got:?})")));
+                                vs.push(v("C19.rejects", self.via_s(), format!("{ctx}: stabilise did not panic (observer reads {got:?})")));
                             }
                             self.kill();
                         }
@@ -529,7 +573,7 @@ impl World for HeightWorld {
                             if check {
                                 vs.push(v(
                                     "C19.accepts",
-                                    format!("{}@{}", self.via, p.short_location()),
+                                    format!("{}@{}", self.via_s(), p.short_location()),
                                     format!("{ctx}: stabilise panicked at {}: {}", p.short_location(), p.first_line()),
                                 ));
                             }
@@ -557,7 +601,7 @@ impl World for HeightWorld {
                             self.mix(&format!("accepted {gr:?}"));
                             if gr != gt {
                                 if check {
-                                    vs.push(v("C19.accepts", format!("{}:value", self.via), format!("{ctx}: accepted but the observer reads {gr:?}, the unlimited twin {gt:?}")));
+                                    vs.push(v("C19.accepts", format!("{}:value", self.via_s()), format!("{ctx}: accepted but the observer reads {gr:?}, the unlimited twin {gt:?}")));
                                 }
                                 self.kill();
                             }
@@ -590,13 +634,14 @@ impl World for HeightWorld {
         // structure; of the twin only the numbers the oracle uses are added.
         let mut s = canonicalise_dump(&real.dump());
         s.push_str(&format!(
-            "\n=== harness built={} observed={} sel={} w={} limit={} via={} setmax_used={} twin_in_use={} twin_seen={} reads={:?}/{:?}",
+            "\n=== harness built={} observed={} sel={} w={} limit={} via={} refused={} setmax_used={} twin_in_use={} twin_seen={} reads={:?}/{:?}",
             self.built,
             self.observed,
             self.sel,
             self.w,
             self.limit,
             self.via,
+            self.refused,
             self.setmax_used,
             self.twin_in_use,
             self.twin_seen,
@@ -624,7 +669,7 @@ impl World for HeightWorld {
 
     fn prog_json(p: &HProg) -> Json {
         let shape = match &p.shape {
-            Shape::Chain { len } => json!({"kind": "chain", "len": len}),
+            Shape::Chain { len, join } => json!({"kind": "chain", "len": len, "join": join}),
             Shape::Bind { depth, sel_level, inside, l0, l1, top } => json!({"kind": "bind", "depth": depth, "sel_level": sel_level, "inside": inside, "l0": l0, "l1": l1, "top": top}),
         };
         json!({"world": "height", "init": p.init, "shape": shape, "mmax": p.mmax, "max_setmax": p.max_setmax})
@@ -633,7 +678,7 @@ impl World for HeightWorld {
         let s = j.get("shape")?;
         let u = |o: &Json, k: &str| o.get(k).and_then(|x| x.as_u64());
         let shape = match s.get("kind")?.as_str()? {
-            "chain" => Shape::Chain { len: u(s, "len")? as usize },
+            "chain" => Shape::Chain { len: u(s, "len")? as usize, join: s.get("join").and_then(|x| x.as_bool()).unwrap_or(false) },
             "bind" => Shape::Bind {
                 depth: u(s, "depth")? as u8,
                 sel_level: u(s, "sel_level")? as u8,
@@ -752,7 +797,11 @@ pub fn family(name: &str, tier: Tier) -> Vec<HProg> {
                     continue;
                 }
                 for len in 1..=n + 2 {
-                    out.push(HProg { init: Some(n), shape: Shape::Chain { len }, mmax, max_setmax: 2 });
+                    out.push(HProg { init: Some(n), shape: Shape::Chain { len, join: false }, mmax, max_setmax: 2 });
+                }
+                // a two-input node on top: needed heights 2..=N+2
+                for len in 0..=n {
+                    out.push(HProg { init: Some(n), shape: Shape::Chain { len, join: true }, mmax, max_setmax: 2 });
                 }
                 // bind nests whose right-hand sides need heights N-1 ..= N+2
                 for shape in bind_shapes(n + 1, n as i64 - 1, n as i64 + 2, thorough) {
@@ -762,7 +811,10 @@ pub fn family(name: &str, tier: Tier) -> Vec<HProg> {
         }
         "height/default" => {
             for len in 1..=mmax + 1 {
-                out.push(HProg { init: None, shape: Shape::Chain { len }, mmax, max_setmax: 2 });
+                out.push(HProg { init: None, shape: Shape::Chain { len, join: false }, mmax, max_setmax: 2 });
+            }
+            for len in [1usize, 3, 5, 7] {
+                out.push(HProg { init: None, shape: Shape::Chain { len, join: true }, mmax, max_setmax: 2 });
             }
             for shape in bind_shapes(if thorough { 5 } else { 3 }, 1, mmax as i64 + 1, thorough) {
                 out.push(HProg { init: None, shape, mmax, max_setmax: 2 });
